@@ -8,8 +8,8 @@ open Knut.Generated.ProcOrder
 
 /-- `knut print` (`cmd/commands/print.go`): ONE processor, the package-level `check.Check()` (a fresh checker without `Write`) —
 again the stage of `TransProcessAllCheck`; the journal is printed afterwards, outside the pipeline. -/
-theorem printOrder_eq : printOrder = ["check.Check"] := rfl
+theorem printOrder_eq : printOrder = ["check.Check"] := by decide
 
-theorem printCalls_eq : printCalls = [("check.Check", [])] := rfl
+theorem printCalls_eq : printCalls = [("check.Check", [])] := by decide
 
 end Knut.FactsAgree.ProcOrder
